@@ -1,3 +1,4 @@
 import MpirProofs.Lemmas.Base
 import MpirProofs.Lemmas.Kernels
 import MpirProofs.Props.C03
+import MpirProofs.Props.C14
